@@ -4,6 +4,7 @@ C08.a acceptance test dominates every replacement of a sub-block
 C08.b decision tables (sign domain, exhaustive): improves_criterion, block_has_been_optimized, compare_best_block
 C08.c single source of cost + is_push0 consulted by every price function
 C08.d totals are updated with the block that is actually emitted
+C08.e price tables: static gas classes, nothing free, no missing comma
 """
 import ast
 import itertools
